@@ -17,6 +17,8 @@ var requiredProbes = map[string][]string{
 		"conflict-removal-2-levels", "child-spends-two-outputs-of-removed-parent",
 		"coinbase-dependants-removed-on-rollback", "unrelated-unmined-stays", "reconnect-same-block",
 		"direct-construction-compared"},
+	"C10": {"fault-in-rollback", "fault-in-removeconflict-recursion", "fault-in-addcredit", "fault-in-lease-op",
+		"commit-failure", "multi-transaction-op-enumerated"},
 	"C12": {"query-exactly-at-expiry", "lease-on-unmined-then-confirms", "leased-and-unmined-spent",
 		"sweep-mixed-expired-live", "lease-extended-by-same-id", "lease-refused-other-id",
 		"release-refused-other-id", "lease-unknown-output", "lease-cleared-by-confirmed-spend",
@@ -26,7 +28,12 @@ var requiredProbes = map[string][]string{
 		"dup-edge-graph:dsort", "diamond-graph:dsort", "chain-depth-3-graph:dsort", "conflicting-siblings-graph:dsort", "no-edge-graph:dsort"},
 }
 
-func (sim) Level(prop string) string { return "exploration" }
+func (sim) Level(prop string) string {
+	if prop == "C10" {
+		return "fault_enumeration"
+	}
+	return "exploration"
+}
 
 func (sim) Rule(prop string) string {
 	base := "ledgersim: a generated transaction universe (6-40 real wire.MsgTx over 2-6 wallet scripts) is played to a real wtxmgr.Store on a real bdb file as the event stream a validating node would emit (mempool acceptance, blocks, disconnections to a height, reconnection, RBF eviction, abandon, redelivery, leases, clock steps, reopen); the reference ledger (a set of known transactions folded from scratch for every query) is compared "
@@ -35,6 +42,8 @@ func (sim) Rule(prop string) string {
 		return base + "after every operation: Balance on a grid of 8 minconf x 5 sync heights, UnspentOutputs field by field, OutputsToWatch."
 	case "C02":
 		return base + "after every operation: UnminedTxHashes and TxDetails of every universe transaction (known set, status, credits); at the end a second real store built from the final facts only must answer all queries identically."
+	case "C10":
+		return "ledgersim fault enumeration: the host history is the C01 workload; for every database transaction of every selected mutating store operation (quick: each with probability 1/4, chosen in the plan; thorough: all) the k-th mutating database call is made to fail for k = 1..n (n = last k that fired, cap 400), then the commit, then the operation is retried; every attempt starts from the same pre-state. Checked per k: error reported or full effect (dump equality with the fault-free attempt), database dump unchanged after the rollback, Balance/UnspentOutputs/UnminedTxHashes/ListLockedOutputs/TxDetails unchanged through the same Store object; the retry commits exactly what the fault-free attempt produced and the C01/C13 oracles hold afterwards. counters enum.* give, per operation kind, how many instances were enumerated and the distribution of n."
 	case "C12":
 		return base + "after every operation: results and error values of LockOutput/UnlockOutput, Balance, UnspentOutputs, OutputsToWatch, ListLockedOutputs against the lease model on the simulated clock."
 	case "C13":
